@@ -66,8 +66,9 @@ Judge == cl_pos = 0 \/ LET v == Verdict(Recs[cl_pos]) IN
                        \/ v[1] = "open" /\ PrintT(<<"VF", "OPEN", cl_pos, v[2]>>)
                        \/ ~PrintT(<<"VF", "BAD", cl_pos, v>>)
 
-ASSUME Family = "all" => {<<Recs[k].tpl, Recs[k].msg>> : k \in 1..N} = Files(Thorough)
-ASSUME Family = "shard" => \A k \in 1..N : <<Recs[k].tpl, Recs[k].msg>> \in Files(Thorough)
+Dom == IF Family \in {"all", "shard"} THEN Files(Thorough) ELSE {}
+ASSUME Family = "all" => {<<Recs[k].tpl, Recs[k].msg>> : k \in 1..N} = Dom
+ASSUME Family = "shard" => \A k \in 1..N : <<Recs[k].tpl, Recs[k].msg>> \in Dom
 ASSUME Family \in {"all", "shard"} => Cardinality({<<Recs[k].tpl, Recs[k].msg>> : k \in 1..N}) = N
 ASSUME PrintT(<<"VF", "DOMAIN", Family, N>>)
 =============================================================================
